@@ -40,7 +40,11 @@ enum Step {
     RenameEvict,
     IdChange(usize),
     Exec(usize, i32),
-    ExecPaged(usize, i32),
+    /// paged execution; the optional server event is applied by the mock right after it served the FIRST page
+    ExecPaged(usize, i32, Option<Box<Step>>),
+    /// the same SELECT text through the CachingSession (its own cached handle), unpaged / paged
+    CExec(usize, i32),
+    CExecPaged(usize, i32, Option<Box<Step>>),
     Batch(usize, i32),
     Prepare,
 }
@@ -75,6 +79,17 @@ fn parse_history(v: &Value) -> Result<History, String> {
     };
     let node = |s: &Value| -> Result<usize, String> { s["node"].as_u64().map(|n| n as usize).filter(|n| *n < NODES).ok_or_else(|| format!("step {s}: node missing or out of range")) };
     let pk = |s: &Value| -> Result<i32, String> { s["pk"].as_i64().and_then(|k| i32::try_from(k).ok()).ok_or_else(|| format!("step {s}: pk missing or not an int")) };
+    let ev_of = |s: &Value| -> Result<Step, String> {
+        Ok(match s["ev"].as_str() {
+            Some("evict") => Step::Evict(node(s)?),
+            Some("alter") => Step::Alter,
+            Some("alter_evict") => Step::AlterEvict,
+            Some("rename_evict") => Step::RenameEvict,
+            Some("idchange") => Step::IdChange(node(s)?),
+            _ => return Err(format!("unknown event {s}")),
+        })
+    };
+    let mid_of = |s: &Value| -> Result<Option<Box<Step>>, String> { if s["mid"].is_object() { Ok(Some(Box::new(ev_of(&s["mid"])?))) } else { Ok(None) } };
     let mut steps = Vec::new();
     for s in v["steps"].as_array().ok_or("steps missing")? {
         let st = match (s["ev"].as_str(), s["op"].as_str()) {
@@ -84,7 +99,9 @@ fn parse_history(v: &Value) -> Result<History, String> {
             (Some("rename_evict"), None) => Step::RenameEvict,
             (Some("idchange"), None) => Step::IdChange(node(s)?),
             (None, Some("exec")) => Step::Exec(node(s)?, pk(s)?),
-            (None, Some("exec_paged")) => Step::ExecPaged(node(s)?, pk(s)?),
+            (None, Some("exec_paged")) => Step::ExecPaged(node(s)?, pk(s)?, mid_of(s)?),
+            (None, Some("cexec")) => Step::CExec(node(s)?, pk(s)?),
+            (None, Some("cexec_paged")) => Step::CExecPaged(node(s)?, pk(s)?, mid_of(s)?),
             (None, Some("batch")) => Step::Batch(node(s)?, pk(s)?),
             (None, Some("prepare")) => Step::Prepare,
             _ => return Err(format!("unknown step {s}")),
@@ -153,6 +170,8 @@ struct Model {
     frames: Vec<Value>,
     /// User frames the model has no rule for (other opcodes): counted only.
     other_frames: u64,
+    /// armed by a paged step: event to apply right after the first page of rows has been served
+    mid_event: Option<(Value, Step)>,
 }
 
 fn mid(ver: u8) -> Vec<u8> {
@@ -243,7 +262,7 @@ impl Answer {
 
 impl Model {
     fn new(ext: [bool; NODES]) -> Model {
-        Model { ver: 1, extra: 0, bgen: 0, ext, prepared: [HashSet::new(), HashSet::new()], salt: [0; NODES], frames: vec![], other_frames: 0 }
+        Model { ver: 1, extra: 0, bgen: 0, ext, prepared: [HashSet::new(), HashSet::new()], salt: [0; NODES], frames: vec![], other_frames: 0, mid_event: None }
     }
 
     fn apply_event(&mut self, st: &Step) {
@@ -417,6 +436,13 @@ impl Model {
             "reply_mid": opt_bytes_json(ans.reply_mid.as_deref()),
             "reply_ncols": ans.ncols,
         }));
+        // between two pages: the armed server event happens once the first page (rows + a paging state) has been decided
+        if matches!(&ans.reply, Reply::Rows { paging_state: Some(_), .. }) {
+            if let Some((echo, st)) = self.mid_event.take() {
+                self.apply_event(&st);
+                self.frames.push(json!({"midev": echo}));
+            }
+        }
         Action::Reply(ans.reply)
     }
 }
@@ -530,6 +556,9 @@ async fn run_with_mock(h: &History, mock: &MockCluster, model: &Arc<Mutex<Model>
         Ok(s) => s,
         Err(e) => return fail(format!("session build: {e}")),
     };
+    let caching: scylla::client::caching_session::CachingSession =
+        scylla::client::caching_session::CachingSessionBuilder::new(session).use_cached_result_metadata(h.skip).build();
+    let session = caching.get_session();
 
     // Wait until both nodes are known and have their pool connection (at most 5 s).
     let t0 = Instant::now();
@@ -541,7 +570,6 @@ async fn run_with_mock(h: &History, mock: &MockCluster, model: &Arc<Mutex<Model>
     };
     while !ready() {
         if t0.elapsed() > Duration::from_secs(5) {
-            drop(session);
             return fail("pools not ready after 5 s".into());
         }
         tokio::time::sleep(Duration::from_millis(5)).await;
@@ -557,7 +585,6 @@ async fn run_with_mock(h: &History, mock: &MockCluster, model: &Arc<Mutex<Model>
     let mut prepared = match session.prepare(SELECT).await {
         Ok(p) => p,
         Err(e) => {
-            drop(session);
             let mut o = fail(format!("setup prepare select: {e}"));
             o["setup"] = Value::Array(take_frames(0));
             return o;
@@ -566,7 +593,6 @@ async fn run_with_mock(h: &History, mock: &MockCluster, model: &Arc<Mutex<Model>
     let prepared_insert = match session.prepare(INSERT).await {
         Ok(p) => p,
         Err(e) => {
-            drop(session);
             let mut o = fail(format!("setup prepare insert: {e}"));
             o["setup"] = Value::Array(take_frames(0));
             return o;
@@ -575,7 +601,6 @@ async fn run_with_mock(h: &History, mock: &MockCluster, model: &Arc<Mutex<Model>
     let prepared_insert2 = match session.prepare(INSERT2).await {
         Ok(p) => p,
         Err(e) => {
-            drop(session);
             let mut o = fail(format!("setup prepare insert2: {e}"));
             o["setup"] = Value::Array(take_frames(0));
             return o;
@@ -595,65 +620,27 @@ async fn run_with_mock(h: &History, mock: &MockCluster, model: &Arc<Mutex<Model>
             }
             Step::Exec(n, k) => {
                 prepared.set_load_balancing_policy(Some(forced(*n)));
-                match session.execute_unpaged(&prepared, (*k,)).await {
-                    Err(e) => err_json(&e),
-                    Ok(qr) => match qr.into_rows_result() {
-                        Err(e) => err_json(&e),
-                        Ok(rr) => {
-                            let cols: Vec<String> = rr.column_specs().iter().map(|c| c.name().to_string()).collect();
-                            match rr.rows::<Row>() {
-                                Err(e) => err_json(&e),
-                                Ok(it) => {
-                                    let mut rows = Vec::new();
-                                    let mut err = None;
-                                    for r in it {
-                                        match r {
-                                            Ok(r) => rows.push(row_json(&r)),
-                                            Err(e) => {
-                                                err = Some(err_json(&e));
-                                                break;
-                                            }
-                                        }
-                                    }
-                                    match err {
-                                        Some(e) => e,
-                                        None => json!({"ok": 1, "cols": cols, "rows": rows}),
-                                    }
-                                }
-                            }
-                        }
-                    },
-                }
+                collect_unpaged(session.execute_unpaged(&prepared, (*k,)).await)
             }
-            Step::ExecPaged(n, k) => {
+            Step::ExecPaged(n, k, mid) => {
                 prepared.set_load_balancing_policy(Some(forced(*n)));
-                match session.execute_iter(prepared.clone(), (*k,)).await {
-                    Err(e) => err_json(&e),
-                    Ok(pager) => {
-                        // column names: those of the first page (taken before the stream consumes the pager)
-                        let cols: Vec<String> = pager.column_specs().iter().map(|c| c.name().to_string()).collect();
-                        match pager.rows_stream::<Row>() {
-                            Err(e) => err_json(&e),
-                            Ok(mut stream) => {
-                                let mut rows = Vec::new();
-                                let mut err = None;
-                                while let Some(r) = stream.next().await {
-                                    match r {
-                                        Ok(r) => rows.push(row_json(&r)),
-                                        Err(e) => {
-                                            err = Some(err_json(&e));
-                                            break;
-                                        }
-                                    }
-                                }
-                                match err {
-                                    Some(e) => e,
-                                    None => json!({"ok": 1, "cols": cols, "rows": rows}),
-                                }
-                            }
-                        }
-                    }
-                }
+                model.lock().unwrap().mid_event = mid.as_ref().map(|m| (echo["mid"].clone(), (**m).clone()));
+                let r = collect_pager(session.execute_iter(prepared.clone(), (*k,)).await).await;
+                model.lock().unwrap().mid_event = None;
+                r
+            }
+            Step::CExec(n, k) => {
+                let mut q = scylla::statement::unprepared::Statement::new(SELECT);
+                q.set_load_balancing_policy(Some(forced(*n)));
+                collect_unpaged(caching.execute_unpaged(q, (*k,)).await)
+            }
+            Step::CExecPaged(n, k, mid) => {
+                let mut q = scylla::statement::unprepared::Statement::new(SELECT);
+                q.set_load_balancing_policy(Some(forced(*n)));
+                model.lock().unwrap().mid_event = mid.as_ref().map(|m| (echo["mid"].clone(), (**m).clone()));
+                let r = collect_pager(caching.execute_iter(q, (*k,)).await).await;
+                model.lock().unwrap().mid_event = None;
+                r
             }
             Step::Batch(n, k) => {
                 let mut b = Batch::default();
@@ -672,12 +659,60 @@ async fn run_with_mock(h: &History, mock: &MockCluster, model: &Arc<Mutex<Model>
         };
         steps_out.push(json!({"step": echo, "ver": ver, "frames": take_frames(from), "result": result}));
     }
-    drop(session);
+    drop(caching);
     let other = model.lock().unwrap().other_frames;
     if other > 0 && std::env::var("C14_VERBOSE").is_ok() {
         eprintln!("c14: history {}: {other} user frames with an opcode other than PREPARE/EXECUTE/BATCH (answered Void, not recorded)", h.id);
     }
     json!({"id": h.id, "ext": h.ext_json, "skip": h.skip_json, "start_err": "", "setup": setup, "steps": steps_out})
+}
+
+fn collect_unpaged(res: Result<scylla::response::query_result::QueryResult, scylla::errors::ExecutionError>) -> Value {
+    match res {
+        Err(e) => err_json(&e),
+        Ok(qr) => match qr.into_rows_result() {
+            Err(e) => err_json(&e),
+            Ok(rr) => {
+                let cols: Vec<String> = rr.column_specs().iter().map(|c| c.name().to_string()).collect();
+                match rr.rows::<Row>() {
+                    Err(e) => err_json(&e),
+                    Ok(it) => {
+                        let mut rows = Vec::new();
+                        for r in it {
+                            match r {
+                                Ok(r) => rows.push(row_json(&r)),
+                                Err(e) => return err_json(&e),
+                            }
+                        }
+                        json!({"ok": 1, "cols": cols, "rows": rows})
+                    }
+                }
+            }
+        },
+    }
+}
+
+async fn collect_pager(res: Result<scylla::client::pager::QueryPager, scylla::errors::PagerExecutionError>) -> Value {
+    match res {
+        Err(e) => err_json(&e),
+        Ok(pager) => {
+            // column names: those of the first page (taken before the stream consumes the pager)
+            let cols: Vec<String> = pager.column_specs().iter().map(|c| c.name().to_string()).collect();
+            match pager.rows_stream::<Row>() {
+                Err(e) => err_json(&e),
+                Ok(mut stream) => {
+                    let mut rows = Vec::new();
+                    while let Some(r) = stream.next().await {
+                        match r {
+                            Ok(r) => rows.push(row_json(&r)),
+                            Err(e) => return err_json(&e),
+                        }
+                    }
+                    json!({"ok": 1, "cols": cols, "rows": rows})
+                }
+            }
+        }
+    }
 }
 
 // ---------------------------------------------------------------------------------------------
